@@ -62,6 +62,27 @@ Proof.
   pose proof (validate_solver_new _ V) as S. unfold solver_new in S.
   destruct (check_dimensions_ok p); [reflexivity|discriminate].
 Qed.
+Lemma load_validates_effective_settings_ok override j q :
+  decode O finf j = Ok q ->
+  let eff := choose override (desanitize O finf fmax (pset q)) in
+  load O finf fmax override j
+  = if validate O finf (with_settings q eff) then LoadOk (with_settings q eff) else LoadErr.
+Proof.
+  intros D eff. unfold load. rewrite D. cbv zeta. fold eff.
+  destruct (validate O finf (with_settings q eff)) eqn:V; [|reflexivity].
+  apply validate_solver_new. exact V.
+Qed.
+Lemma override_ignores_stored_settings_ok o j j' q q' :
+  decode O finf j = Ok q -> decode O finf j' = Ok q' ->
+  with_settings q o = with_settings q' o ->
+  load O finf fmax (Some o) j = load O finf fmax (Some o) j'.
+Proof.
+  intros D D' E.
+  rewrite (load_validates_effective_settings_ok (Some o) j q D),
+          (load_validates_effective_settings_ok (Some o) j' q' D').
+  cbn [choose]. rewrite E. reflexivity.
+Qed.
+
 Lemma load_ok_consumers_accept_ok override j p :
   load O finf fmax override j = LoadOk p ->
   consumer_solve_method_ok (get_s O finf (pset p) "direct_solve_method") = true
